@@ -65,7 +65,8 @@ func setName(tier string) string {
 func init() {
 	fw.Register(&fw.Prop{
 		ID: "C05",
-		Rule: "cases: (1) exhaustive — every ordered forest of <= 5 (thorough: 6) elements over the tag names {div, x-a} placed in <body>, twice (bare; with random text / white-space / comment nodes interleaved), with random class/id/k attributes, each evaluated against the whole built-in selector set (all compounds of <= 2 (thorough: 3) simple selectors over a fixed alphabet of 3 type/universal + 52 other simple selectors; 5 195 selectors (thorough: 26 243), the full an+b square a,b in [-4,4] for the four :nth-* classes, all pairs of 20 compounds under the 4 combinators (thorough: triples of 8 under 16 combinator pairs), lists, pseudo-elements); " +
+		Rule: "cases: (1) exhaustive — every ordered forest of <= 5 (thorough: 6) elements over the tag names {div, x-a} placed in <body>, twice (bare; with random text / white-space / comment nodes interleaved), with random class/id/k attributes, each evaluated against the whole built-in selector set (all compounds of <= 2 (thorough: 3) simple selectors over a fixed alphabet of 3 type/universal + 54 other simple selectors, among them .c\\a0 d and [k~=\"c\\a0 d\"] (NO-BREAK SPACE inside one word); 5 415 selectors (thorough: 27 099), the full an+b square a,b in [-4,4] for the four :nth-* classes, all pairs of 20 compounds under the 4 combinators (thorough: triples of 8 under 16 combinator pairs), lists, pseudo-elements); " +
+			"Word lists: in both parts class / k / data-k / a.b values are separated by every CSS white space character (SPACE, TAB, LF, FF, CR, CR LF; CR written as &#13;) and 9-14 % of them hold pseudo-spaces — the 20 code points that are white space for Go (unicode.IsSpace: U+000B, U+0085, U+00A0, U+1680, U+2000-U+200A, U+2028, U+2029, U+202F, U+205F, U+3000) but not for CSS, plus U+001C-U+001F, U+180E, U+200B, U+FEFF — between words, at the edges, next to real separators or alone; class selectors, ~= operands (also other operands, IDs, one type name) hold them too, half of the time drawn from the words of the case's document. " +
 			"(2) random — a random document (<= 25 generated elements, 6 tag names, hostile class/id/attribute values, text / white-space / comment children) with 8 random selector lists (<= 3 complex selectors of <= 3 compounds, :not/:is/:has nested to depth 2, pseudo-elements) printed with random white space, comments (also between the simple selectors of a compound), case and escapes. " +
 			"(3) one case replays the W3C selectors-api expectations of css/selector/test_resources through the reference evaluator (it must reproduce all 175 it has a model for) and through css/selector. " +
 			"Every node of the parsed document (elements, text, comments, doctype, document) is submitted to Match. A case is non-trivial when at least one of its selectors matched some but not all elements of its document and all comparisons (match, specificity, pseudo-element, round trip) were carried out; distinct = distinct input.",
@@ -91,9 +92,10 @@ func init() {
 			"the reference evaluator (props/c05/ref.go, written from Selectors 4) is trusted; it reads the parsed *html.Node tree, so HTML parsing itself is not under test",
 			"Selectors-4 semantics where levels differ: structural pseudo-classes apply to the root element; :empty ignores document white space (ASCII white space in HTML)",
 			"documents are HTML-namespace elements except an occasional <svg> subtree holding elements named html / x-a / x-b (lower-case names only; case-sensitive foreign names are not generated)",
-			"outside the asserted domain, probed as report-only in 2 % of the random cases (open known findings, see notes/C05.md): ^= $= *= with a white-space-only operand against blank attribute values; :has() arguments with descendant/child combinators",
+			"outside the asserted domain, probed as report-only in 2 % of the random cases (open known findings, see notes/C05.md): ^= $= *= with an operand that is blank for Go's strings.TrimSpace (CSS white space and/or U+00A0, U+3000 ...) against attribute values that are blank in the same sense; :has() arguments with descendant/child combinators",
+			"white space = SPACE, TAB, LF, FF, CR only (Selectors 4 / CSS Syntax 3 / HTML ASCII whitespace): every other code point, in particular U+00A0 and the other Unicode White_Space characters, is an ordinary character of a class name, a word, an ID or an operand; an ID is the attribute value verbatim (no trimming)",
 			"cascadia extensions (:contains, :matches, :haschild, :input, #=, !=), namespaces, :lang/:link/:enabled/:disabled/:checked and invalid selectors are not generated",
-			"exhaustive cases name a built-in, seed-independent selector set instead of carrying it (5 195 / 26 243 selectors); a replay needs the same props/c05 code",
+			"exhaustive cases name a built-in, seed-independent selector set instead of carrying it (5 415 / 27 099 selectors); a replay needs the same props/c05 code",
 		},
 		Batch: 150,
 	})
@@ -139,6 +141,7 @@ func genCase(r *rand.Rand, i int, tier string) any {
 	}
 	c.Elems += 3
 	c.HTML = document(r, forest, false)
+	g.docWords = collectPSWords(forest)
 	if strings.Contains(c.HTML, "<title>") {
 		c.Elems++
 	}
@@ -559,118 +562,136 @@ func counterFloors(tier string) map[string]int64 {
 	// whose match set was neither empty nor everything; "rmixed:" the same for the random part;
 	// "ref_*" = situations the reference evaluator went through (see refStats).
 	q := map[string]int64{
-		"dom_comments":                         15000,
-		"dom_elements":                         51000,
-		"dom_foreign_elements":                 3200,
-		"dom_text_other":                       7600,
-		"dom_text_ws_only":                     9200,
-		"elem_match_false":                     45000000,
-		"elem_match_true":                      6700000,
-		"mixed:attr_$=":                        86000,
-		"mixed:attr_*=":                        110000,
-		"mixed:attr_=":                         73000,
-		"mixed:attr_^=":                        100000,
-		"mixed:attr_exists":                    170000,
-		"mixed:attr_iflag":                     260000,
-		"mixed:attr_|=":                        83000,
-		"mixed:attr_~=":                        110000,
-		"mixed:class":                          860000,
-		"mixed:comb_adjacent":                  240000,
-		"mixed:comb_child":                     270000,
-		"mixed:comb_descendant":                280000,
-		"mixed:comb_sibling":                   160000,
-		"mixed:empty":                          230000,
-		"mixed:first-child":                    310000,
-		"mixed:first-of-type":                  90000,
-		"mixed:has":                            360000,
-		"mixed:id":                             180000,
-		"mixed:is":                             180000,
-		"mixed:is_list":                        160000,
-		"mixed:last-child":                     190000,
-		"mixed:last-of-type":                   93000,
-		"mixed:list":                           18000,
-		"mixed:nested_logical":                 85000,
-		"mixed:never":                          92000,
-		"mixed:not":                            660000,
-		"mixed:not_list":                       77000,
-		"mixed:nth-child":                      440000,
-		"mixed:nth-last-child":                 150000,
-		"mixed:nth-last-of-type":               290000,
-		"mixed:nth-of-type":                    110000,
-		"mixed:nth_negative_a":                 290000,
-		"mixed:only-child":                     72000,
-		"mixed:only-of-type":                   200000,
-		"mixed:pseudo_element":                 17000,
-		"mixed:root":                           80000,
-		"mixed:type":                           980000,
-		"mixed:univ":                           270000,
-		"node_evals":                           81000000,
-		"ref_adjacent_across_text_or_comment":  21000,
-		"ref_empty_false_element":              1100000,
-		"ref_empty_false_non_ascii_space":      31000,
-		"ref_empty_false_text":                 100000,
-		"ref_empty_true_comment_only":          69000,
-		"ref_empty_true_no_child":              1000000,
-		"ref_empty_true_whitespace_text":       74000,
-		"ref_iflag_folded":                     480000,
-		"ref_iflag_unicode_fold_only":          23000,
-		"ref_is_list_args_disagree":            480000,
-		"ref_not_list_args_disagree":           230000,
-		"ref_nth_negative_a_true":              1700000,
-		"ref_nth_of_type_index_differs":        1600000,
-		"ref_nth_positive_a_true_n_ge_1":       1000000,
-		"ref_nth_true_with_non_element_sibs":   2100000,
-		"ref_root_false_nested_html":           300,
-		"ref_root_true":                        280000,
-		"ref_sibling_across_text_or_comment":   18000,
-		"rmixed:attr_$=":                       440,
-		"rmixed:attr_*=":                       470,
-		"rmixed:attr_=":                        430,
-		"rmixed:attr_^=":                       450,
-		"rmixed:attr_exists":                   680,
-		"rmixed:attr_iflag":                    620,
-		"rmixed:attr_|=":                       400,
-		"rmixed:attr_~=":                       440,
-		"rmixed:class":                         2000,
-		"rmixed:comb_adjacent":                 960,
-		"rmixed:comb_child":                    1500,
-		"rmixed:comb_descendant":               1500,
-		"rmixed:comb_sibling":                  940,
-		"rmixed:empty":                         1200,
-		"rmixed:first-child":                   400,
-		"rmixed:first-of-type":                 420,
-		"rmixed:has":                           550,
-		"rmixed:has_list":                      290,
-		"rmixed:id":                            1000,
-		"rmixed:is":                            920,
-		"rmixed:is_list":                       490,
-		"rmixed:last-child":                    450,
-		"rmixed:last-of-type":                  400,
-		"rmixed:list":                          2300,
-		"rmixed:nested_logical":                680,
-		"rmixed:never":                         380,
-		"rmixed:not":                           1100,
-		"rmixed:not_list":                      600,
-		"rmixed:nth-child":                     550,
-		"rmixed:nth-last-child":                530,
-		"rmixed:nth-last-of-type":              500,
-		"rmixed:nth-of-type":                   470,
-		"rmixed:nth_negative_a":                810,
-		"rmixed:only-child":                    410,
-		"rmixed:only-of-type":                  380,
-		"rmixed:pseudo_element":                930,
-		"rmixed:root":                          610,
-		"rmixed:type":                          4000,
-		"rmixed:univ":                          1600,
-		"roundtrips_ok":                        6700000,
-		"roundtrips_ok_hard_escapes":           280000,
-		"roundtrips_with_escapes":              900000,
-		"selectors":                            6700000,
-		"selectors_mixed":                      2700000,
-		"selectors_mixed_random":               5800,
-		"selectors_ok_comment_inside_compound": 2100,
-		"selectors_ok_with_never_pseudo_class": 270000,
-		"spec_max_differs_from_sum":            480000,
+		"dom_attr_values_with_cr":                 8000,
+		"dom_class_values_with_pseudo_space":      3000,
+		"dom_other_attr_values_with_pseudo_space": 5300,
+		"mixed:pseudo_space_in_class":             7500,
+		"mixed:pseudo_space_in_word_operand":      7200,
+		"rmixed:pseudo_space_in_class":            200,
+		"rmixed:pseudo_space_in_other_name":       580,
+		"rmixed:pseudo_space_in_word_operand":     95,
+		"ref_id_false_untrimmed":                  180,
+		"ref_word_delimited_by_space":             1200000,
+		"ref_word_delimited_by_tab":               300000,
+		"ref_word_delimited_by_lf":                410000,
+		"ref_word_delimited_by_ff":                420000,
+		"ref_word_delimited_by_cr":                540000,
+		"ref_word_is_whole_value":                 500000,
+		"ref_word_true_only_css_space_splits":     28000,
+		"ref_word_false_only_css_space_splits":    270000,
+		"ref_word_true_with_lookalike_char":       12,
+		"dom_comments":                            15000,
+		"dom_elements":                            51000,
+		"dom_foreign_elements":                    3200,
+		"dom_text_other":                          7600,
+		"dom_text_ws_only":                        9200,
+		"elem_match_false":                        45000000,
+		"elem_match_true":                         6700000,
+		"mixed:attr_$=":                           86000,
+		"mixed:attr_*=":                           110000,
+		"mixed:attr_=":                            73000,
+		"mixed:attr_^=":                           100000,
+		"mixed:attr_exists":                       170000,
+		"mixed:attr_iflag":                        260000,
+		"mixed:attr_|=":                           83000,
+		"mixed:attr_~=":                           110000,
+		"mixed:class":                             860000,
+		"mixed:comb_adjacent":                     240000,
+		"mixed:comb_child":                        270000,
+		"mixed:comb_descendant":                   280000,
+		"mixed:comb_sibling":                      160000,
+		"mixed:empty":                             230000,
+		"mixed:first-child":                       310000,
+		"mixed:first-of-type":                     90000,
+		"mixed:has":                               360000,
+		"mixed:id":                                180000,
+		"mixed:is":                                180000,
+		"mixed:is_list":                           160000,
+		"mixed:last-child":                        190000,
+		"mixed:last-of-type":                      93000,
+		"mixed:list":                              18000,
+		"mixed:nested_logical":                    85000,
+		"mixed:never":                             92000,
+		"mixed:not":                               660000,
+		"mixed:not_list":                          77000,
+		"mixed:nth-child":                         440000,
+		"mixed:nth-last-child":                    150000,
+		"mixed:nth-last-of-type":                  290000,
+		"mixed:nth-of-type":                       110000,
+		"mixed:nth_negative_a":                    290000,
+		"mixed:only-child":                        72000,
+		"mixed:only-of-type":                      200000,
+		"mixed:pseudo_element":                    17000,
+		"mixed:root":                              80000,
+		"mixed:type":                              980000,
+		"mixed:univ":                              270000,
+		"node_evals":                              81000000,
+		"ref_adjacent_across_text_or_comment":     21000,
+		"ref_empty_false_element":                 1100000,
+		"ref_empty_false_non_ascii_space":         31000,
+		"ref_empty_false_text":                    100000,
+		"ref_empty_true_comment_only":             69000,
+		"ref_empty_true_no_child":                 1000000,
+		"ref_empty_true_whitespace_text":          74000,
+		"ref_iflag_folded":                        480000,
+		"ref_iflag_unicode_fold_only":             23000,
+		"ref_is_list_args_disagree":               480000,
+		"ref_not_list_args_disagree":              230000,
+		"ref_nth_negative_a_true":                 1700000,
+		"ref_nth_of_type_index_differs":           1600000,
+		"ref_nth_positive_a_true_n_ge_1":          1000000,
+		"ref_nth_true_with_non_element_sibs":      2100000,
+		"ref_root_false_nested_html":              300,
+		"ref_root_true":                           280000,
+		"ref_sibling_across_text_or_comment":      18000,
+		"rmixed:attr_$=":                          440,
+		"rmixed:attr_*=":                          470,
+		"rmixed:attr_=":                           430,
+		"rmixed:attr_^=":                          450,
+		"rmixed:attr_exists":                      680,
+		"rmixed:attr_iflag":                       620,
+		"rmixed:attr_|=":                          400,
+		"rmixed:attr_~=":                          440,
+		"rmixed:class":                            2000,
+		"rmixed:comb_adjacent":                    960,
+		"rmixed:comb_child":                       1500,
+		"rmixed:comb_descendant":                  1500,
+		"rmixed:comb_sibling":                     940,
+		"rmixed:empty":                            1200,
+		"rmixed:first-child":                      400,
+		"rmixed:first-of-type":                    420,
+		"rmixed:has":                              550,
+		"rmixed:has_list":                         290,
+		"rmixed:id":                               1000,
+		"rmixed:is":                               920,
+		"rmixed:is_list":                          490,
+		"rmixed:last-child":                       450,
+		"rmixed:last-of-type":                     400,
+		"rmixed:list":                             2300,
+		"rmixed:nested_logical":                   680,
+		"rmixed:never":                            380,
+		"rmixed:not":                              1100,
+		"rmixed:not_list":                         600,
+		"rmixed:nth-child":                        550,
+		"rmixed:nth-last-child":                   530,
+		"rmixed:nth-last-of-type":                 500,
+		"rmixed:nth-of-type":                      470,
+		"rmixed:nth_negative_a":                   810,
+		"rmixed:only-child":                       410,
+		"rmixed:only-of-type":                     380,
+		"rmixed:pseudo_element":                   930,
+		"rmixed:root":                             610,
+		"rmixed:type":                             4000,
+		"rmixed:univ":                             1600,
+		"roundtrips_ok":                           6700000,
+		"roundtrips_ok_hard_escapes":              280000,
+		"roundtrips_with_escapes":                 900000,
+		"selectors":                               6700000,
+		"selectors_mixed":                         2700000,
+		"selectors_mixed_random":                  5800,
+		"selectors_ok_comment_inside_compound":    2100,
+		"selectors_ok_with_never_pseudo_class":    270000,
+		"spec_max_differs_from_sum":               480000,
 	}
 	out := map[string]int64{}
 	for k, v := range q {
